@@ -20,18 +20,11 @@ Fixpoint ins {A} (x : Z * A) (l : ring A) : ring A :=
 Definition sort_ring {A} (l : ring A) : ring A := fold_left (fun acc x => ins x acc) l [].
 
 (* ---- TokenRing::ring_range_full -------------------------------------------------------
-   `self.ring.binary_search_by(|e| e.0.cmp(&token))` : Ok(i) | Err(i) => i.
-   On a slice sorted by token, the standard library's binary search (rustc 1.95) returns the
-   LAST index holding an equal token when there is one, otherwise the number of smaller
-   tokens.  (Which equal element is hit is documented as unspecified; the theorems of C04 that
-   depend on it assume distinct tokens; the correspondence check validates this definition on
-   rings with repeated tokens as well.) *)
+   `self.ring.partition_point(|e| e.0 < token)` : on a slice sorted by token this is the first
+   index whose token is not lower than the given one, i.e. the number of lower tokens
+   (members sharing a token are never skipped). *)
 Definition count_lt {A} (t : Z) (l : ring A) : nat := List.length (filter (fun e => fst e <? t) l).
-Definition count_le {A} (t : Z) (l : ring A) : nat := List.length (filter (fun e => fst e <=? t) l).
-Definition landing {A} (l : ring A) (t : Z) : nat :=
-  let lt := count_lt t l in
-  let le := count_le t l in
-  if (lt <? le)%nat then (le - 1)%nat else lt.
+Definition landing {A} (l : ring A) (t : Z) : nat := count_lt t l.
 
 (* `self.ring[i..].iter().chain(self.ring.iter()).take(self.ring.len())` *)
 Definition ring_range_full {A} (l : ring A) (t : Z) : ring A :=
